@@ -10,11 +10,16 @@
    The module is the ORACLE: it states what the property and the documentation promise.  Where it
    deliberately follows the code rather than a wish, the operator carries a name:
      FailedCloseLeavesStateOpen   close() does not translate a raising server send and the
-                                  connection stays usable (so a later close may be attempted again)
+                                  connection stays accepted AND usable (messages keep arriving in
+                                  order; a later close may be attempted again)
+     FailedCloseStartsPumpInHandshake   the repaired close() restarts the receiver after a failed
+                                  send whatever the state, so a close() that failed BEFORE accept
+                                  leaves the pump running during the handshake: a client disconnect
+                                  is then noticed (accept -> "closed" error, no 403/close needed).
+                                  Set the switch to FALSE if the restart gets guarded by the state.
      AbandonedHandshakeClose      a first event other than websocket.connect is answered with
                                   close(1011)
      TypeCheckBeforeLostCheck     a wrong payload type wins over a disconnect only the pump saw
-                                  (also after a close() that found the client gone: why = "seen")
    Results carry cl = "P" (demanded by the property statement) or "D" (model detail). *)
 EXTENDS Integers, Sequences, TLC
 
@@ -33,7 +38,7 @@ CONSTANTS Versions,      \* ASGI WebSocket spec versions as integers 20..24 (2.0
 
 VARIABLES ver, maxq,     \* configuration fixed at connection time
           pc,            \* "start" | "resp" (responder script running) | "done"
-          w,             \* WebSocket object state [st, why, cc, pend, flt, seen]
+          w,             \* WebSocket object state [st, why, cc, pend, flt, seen, pump]
           gone, gcode,   \* the client's disconnect event has arrived at the server (+ its code)
           blk,           \* name of the receive call waiting for a client event, or "none"
           mon,           \* server-side legality automaton over the events sent so far
@@ -62,13 +67,15 @@ CloseEv(code, rs, ok) ==
 (* The pump moves only while the loop is drained, i.e. between two actions: what it has seen is
    a snapshot (x.seen) refreshed by Settle at the end of every action, not something that changes
    in the middle of a call. *)
-PumpHoldsOneInHand(x, g) == maxq > 0 /\ x.st = "accepted" /\ g /\ Len(x.pend) <= maxq + 1
+FailedCloseStartsPumpInHandshake == TRUE
+PumpRuns(x)   == x.st = "accepted" \/ (x.st = "handshake" /\ x.pump)
+PumpHoldsOneInHand(x, g) == maxq > 0 /\ PumpRuns(x) /\ g /\ Len(x.pend) <= maxq + 1
 Settle(x, g)  == [x EXCEPT !.seen = x.seen \/ PumpHoldsOneInHand(x, g)]
-Seen(x)       == x.seen /\ x.st = "accepted"        \* the pump has met the disconnect event
+Seen(x)       == x.seen /\ PumpRuns(x)               \* the pump has met the disconnect event
 ClosedView(x) == x.st = "closed" \/ Seen(x)          \* WebSocket.closed
-Known(x)      == (x.st = "closed" /\ x.why \in {"client", "seen"}) \/ Seen(x)
+Known(x)      == (x.st = "closed" /\ x.why = "client") \/ Seen(x)
 DiscCode      == IF gcode = 0 THEN 1000 ELSE gcode
-View(x)       == IF Seen(x) THEN "seen" ELSE x.st
+View(x)       == IF Seen(x) THEN (IF x.st = "handshake" THEN "hseen" ELSE "seen") ELSE x.st
 
 (* ---- one send attempt: f is the fault armed for the first attempt of the action ------------ *)
 Att(x, f) == IF x.flt \in Sticky THEN [ok |-> FALSE, kind |-> x.flt, flt |-> x.flt]
@@ -89,24 +96,24 @@ DoAccept(x, sp, hd, f) ==
          ELSE IF a.kind \in Sticky THEN R(Lost(x, a.flt), "wsd", 1000, <<AcceptEv(sp, hd, FALSE)>>, "D")
          ELSE R([x EXCEPT !.flt = a.flt], "server", 0, <<AcceptEv(sp, hd, FALSE)>>, "D")
 
-FailedCloseLeavesStateOpen(x, a, code, rs) == R([x EXCEPT !.flt = a.flt], "server", 0, <<CloseEv(code, rs, FALSE)>>, "D")
+FailedCloseLeavesStateOpen(x, a, code, rs) ==
+    R([x EXCEPT !.flt = a.flt, !.pump = x.pump \/ (FailedCloseStartsPumpInHandshake /\ maxq > 0)],
+      "server", 0, <<CloseEv(code, rs, FALSE)>>, "D")
 
 DoClose(x, code, rs, f) ==
     IF Invalid(code) THEN R(x, "value", 0, <<>>, "P")                   \* in every state, and nothing else changes
     ELSE IF x.st = "closed" THEN R(x, "ok", 0, <<>>, "P")
-    ELSE IF Seen(x) THEN R([x EXCEPT !.st = "closed", !.why = "seen", !.cc = DiscCode], "ok", 0, <<>>, "P")
+    ELSE IF Seen(x) THEN R([x EXCEPT !.st = "closed", !.why = "client", !.cc = DiscCode], "ok", 0, <<>>, "P")
     ELSE LET a == Att(x, f) IN
          IF a.ok THEN R([x EXCEPT !.st = "closed", !.why = "server", !.cc = IF code = 0 THEN 1000 ELSE code],
                         "ok", 0, <<CloseEv(code, rs, TRUE)>>, "P")
          ELSE FailedCloseLeavesStateOpen(x, a, code, rs)
 
-(* why = "seen": closed by a close() that found the client already gone (nothing was sent) *)
-TypeCheckBeforeLostCheck(x) == R(x, "type", 0, <<>>, IF Seen(x) \/ x.st = "closed" THEN "D" ELSE "P")
+TypeCheckBeforeLostCheck(x) == R(x, "type", 0, <<>>, IF Seen(x) THEN "D" ELSE "P")
 
 DoSend(x, op, k, v, f) ==
     IF x.st = "handshake" THEN R(x, "ona", 0, <<>>, "P")
-    ELSE IF x.st = "closed" /\ x.why = "seen" /\ v = 0 THEN TypeCheckBeforeLostCheck(x)
-    ELSE IF x.st = "closed" THEN R(IF x.why = "seen" THEN [x EXCEPT !.why = "client"] ELSE x, "wsd", x.cc, <<>>, "P")
+    ELSE IF x.st = "closed" THEN R(x, "wsd", x.cc, <<>>, "P")
     ELSE IF v = 0 THEN TypeCheckBeforeLostCheck(x)
     ELSE IF Seen(x) THEN R([x EXCEPT !.st = "closed", !.why = "client", !.cc = DiscCode], "wsd", DiscCode, <<>>, "P")
     ELSE LET a == Att(x, f) IN
@@ -142,10 +149,9 @@ Cleanup(x, ec, f) ==
          THEN LET d == DoClose(c.w, 3011, 0, "none") IN H(d.w, c.evs \o d.evs, d.r = "server")
     ELSE H(c.w, c.evs, c.r = "server")
 (* a custom handler that returns without closing: the property still demands a close ("with and
-   without custom error handlers"); the framework is expected to clean up as for an unhandled
-   error, but the code it uses is left free (-1 matches any code) *)
-NoopHandlerStillCloses(x, ec, f) ==
-    LET c == Cleanup(x, ec, f) IN H(c.w, [i \in 1..Len(c.evs) |-> [c.evs[i] EXCEPT !.code = -1]], c.esc)
+   without custom error handlers"); the framework cleans up as for an unhandled error, with the
+   configured error close code (and its 3011 fallback) *)
+NoopHandlerStillCloses(x, ec, f) == Cleanup(x, ec, f)
 Handle(x, exc, hs, hk, ec, f) ==
     CASE exc = "http" -> CloseWith(x, 3000 + hs, f)
       [] exc = "boom" /\ hk = "close" -> CloseWith(x, 4001, f)
@@ -172,7 +178,7 @@ L0 == [a |-> "init", op |-> "", sp |-> 0, hd |-> 0, code |-> 0, rs |-> 0, k |-> 
        f |-> "none", x |-> "", mw |-> "none", route |-> "ok", hk |-> "default", ec |-> 1011, first |-> "connect",
        r |-> "none", rv |-> 0, evs |-> <<>>, cl |-> "P", esc |-> FALSE, pre |-> "handshake", fin |-> FALSE]
 
-W0 == [st |-> "handshake", why |-> "none", cc |-> 0, pend |-> <<>>, flt |-> "clear", seen |-> FALSE]
+W0 == [st |-> "handshake", why |-> "none", cc |-> 0, pend |-> <<>>, flt |-> "clear", seen |-> FALSE, pump |-> FALSE]
 
 Init == /\ ver \in Versions /\ maxq \in QueueSizes
         /\ pc = "start" /\ w = W0 /\ gone = FALSE /\ gcode = 0 /\ blk = "none" /\ mon = "connecting"
@@ -331,12 +337,12 @@ StateAgrees == /\ (w.st = "accepted" => mon = "open")
 (* every <state, operation> pair has exactly the documented outcome (second, tabular statement) *)
 WrongStateErrorsAreDocumented ==
     last.a = "op" =>
-      /\ (last.op \in SendOps \cup RecvOps /\ last.pre = "handshake" => last.r = "ona")
-      /\ (last.op \in SendOps \cup RecvOps /\ last.pre = "closed" => last.r \in {"wsd", "type"})
+      /\ (last.op \in SendOps \cup RecvOps /\ last.pre \in {"handshake", "hseen"} => last.r = "ona")
+      /\ (last.op \in SendOps \cup RecvOps /\ last.pre = "closed" => last.r = "wsd")
       /\ (last.r = "type" => last.op \in {"send_text", "send_data"} /\ last.v = 0)
       /\ (last.op = "accept" /\ last.pre # "handshake" => last.r = "ona")
       /\ (last.op = "close" /\ Invalid(last.code) => last.r = "value" /\ (last.prop \/ last.evs = <<>>))
-      /\ (last.op = "close" /\ ~Invalid(last.code) /\ last.pre \in {"closed", "seen"} => last.r = "ok" /\ last.evs = <<>>)
+      /\ (last.op = "close" /\ ~Invalid(last.code) /\ last.pre \in {"closed", "seen", "hseen"} => last.r = "ok" /\ last.evs = <<>>)
       /\ (last.op \in SendOps /\ last.pre = "seen" => last.r \in {"wsd", "type"} /\ last.evs = <<>>)
       /\ (last.r \in {"ona", "wsd", "type", "value", "payload"} /\ ~last.prop => \A i \in 1..Len(last.evs) : ~last.evs[i].ok)
       /\ (last.r = "payload" => last.op \in {"receive_text", "receive_data"} /\ last.pre \in {"accepted", "seen"})
